@@ -209,7 +209,8 @@ func (fx *FX) buildScripts() {
 			var b strings.Builder
 			b.WriteString("; obligation " + it.ob.Name + "\n; clause: " + it.ob.Clause + "\n")
 			b.WriteString("(set-option :produce-models true)\n(set-logic ALL)\n")
-			tail := specs.String() + prefix.String() + "(assert " + it.reach.S + ")\n" + "(assert (not " + it.goal.S + "))\n"
+			rest := prefix.String() + "(assert " + it.reach.S + ")\n" + "(assert (not " + it.goal.S + "))\n"
+			tail := specs.String() + e.W.EstablishedFacts(rest) + rest
 			if it.ob.Kind == "cover" {
 				// vacuity guards are decided on the quantifier-free part of the assumptions
 				tail = stripQuantifiedAsserts(specs.String()) + qfPrefix.String() + "(assert " + it.reach.S + ")\n"
